@@ -1,5 +1,5 @@
 CONSTANTS
-  Family = {"int", "bool", "mutex"}
+  Family = {"bool"}
   IndexCfgsSel = "plain"
   Depth = 3
   MaxRestarts = 2
